@@ -281,14 +281,14 @@ def e2_expiry(args) -> Acc:
 
 G_SYS = [(-200, 200, 0, 0), (-100, 100, 0, 0), (-200, 200, -60, 60)]
 G_EVENTS = (
-    [("p", g, 3, "a", None, 50, 100) for g in (1, 2)]
+    [("p", 1, 3, "a", None, 50, 100), ("p", 2, 3, "a", None, -150, 150)]  # (group 2: bounds wider than the narrow system bounds)
     + [("p", g, 2, "b", 150, None, None) for g in (1, 2)]
     + [("p", 1, 1, "c", 20, None, None)]
     + [("p", 1, 2, "b", -50, -20, -120)]  # actor b replaces its proposal by one whose own bounds are inverted
     + [("p", 1, 2, "b", 40, None, None, -5.0)]  # ... by one that was created 5 s before it arrives (creation_time is an input)
-    + [("t", 30.25), ("t", 31.0), ("s", 0), ("s", 1), ("s", 2)]
+    + [("t", 30.25), ("t", 30.6), ("s", 0), ("s", 1), ("s", 2)]
 )
-MAX_AGE_G = 60.75  # a maximum age with a fractional part: two 30.25 s steps stay below it, 30.25 s + 31 s do not
+MAX_AGE_G = 60.75  # a maximum age with a fractional part: two 30.25 s steps stay below it, 30.25 s + 30.6 s = 60.85 s do not
 G_EVENTS_T = G_EVENTS + [("p", 2, 1, "c", -100, None, None), ("t", 1.0)]
 
 
@@ -495,7 +495,7 @@ def run(tier: str, seed: int, workers: int):
     acc = pmap_acc(_dispatch, shards, workers)
     meta = {
         "rule": "E2c (groups): every sequence to depth 5 over {actor a / b proposes for component group 1 or 2, actor c for "
-        "group 1, actor b replaces its proposal by one with inverted bounds or by one created 5 s before it arrives, +30.25 s, +31 s (maximum proposal age 60.75 s), a system-bounds "
+        "group 1, actor b replaces its proposal by one with inverted bounds or by one created 5 s before it arrives, +30.25 s, +30.6 s (maximum proposal age 60.75 s), a system-bounds "
         "update to one of 3 shapes (two differ only in the exclusion zone) after which every group is re-evaluated without a proposal} on ONE "
         "Matryoshka, without state merging: after every proposal and bounds update the stored target, and after every event the recomputed "
         "target and the bounds reported to a priority-1 actor (get_status), of both groups equal what a fresh instance computes from that "
